@@ -164,6 +164,7 @@ pub fn run(args: &[String]) {
         // known classes: a `let` anywhere; a statement starting with `-` after a statement ending in an assignment
         let has_let = model.iter().any(|s| matches!(s, MStmt::Alias { .. }));
         let glue = parts.windows(2).any(|w| w[1].starts_with('-') && ends_with_assignment(&model[parts.iter().position(|p| p == &w[0]).unwrap_or(0)]));
+        let trailing_scope = matches!(model.last(), Some(MStmt::Scope(_)));
         let r = catch(std::panic::AssertUnwindSafe(|| compose_with(&parts, "\n")));
         let line = match r {
             Ok((Some(t), Some(b))) => {
@@ -173,6 +174,8 @@ pub fn run(args: &[String]) {
                     "KNOWN C16.let_context".to_string()
                 } else if glue {
                     "KNOWN C16.assignment_glues_operator".to_string()
+                } else if t && trailing_scope {
+                    "KNOWN C16.trailing_anon_block".to_string()
                 } else {
                     format!("FAIL C16: the concatenation does not parse to the statements of its parts (top level ok={t}, in block ok={b})")
                 }
